@@ -235,7 +235,11 @@ def tile_query(prog: Program) -> List[Instance]:
                     yields_idx = any(isinstance(x, (ast.Yield,)) and x.value is not None and short(x.value) == idx for s in st.body for x in ast.walk(s))
                     ok = uses_tile and pol_ok and yields_idx
                     detail = f"tile={tile_var}, test=`{short(t)}`, yields idx={yields_idx}"
-    out.append(Instance("R-GUARDSEQ", f"{f.qual}#filter-by-own-extent", OK if ok else BAD,
+    recognised = any(isinstance(x, ast.Call) and call_name(x) in ("disjoint", "intersects") and isinstance(x.func, ast.Attribute) for lp in loops for x in ast.walk(lp))
+    if not ok and not recognised:
+        out.append(Instance("R-GUARDSEQ", f"{f.qual}#filter-by-own-extent", UNDET, f"no `<query>.disjoint(..)` / `.intersects(..)` method call inside a loop of tiles() ({detail}): the filter is spelled in a way this clause does not read", f.where()))
+    else:
+      out.append(Instance("R-GUARDSEQ", f"{f.qual}#filter-by-own-extent", OK if ok else BAD,
                         "a candidate index is yielded iff the query is not disjoint from the extent of the tile at that index" if ok else f"tile filter broken ({detail})", f.where()))
     # candidates come from the bounding box of the query polygon that was reconciled
     rb = [n for n in walk_own(f.node) if isinstance(n, ast.Call) and call_name(n) == "range_from_bbox"]
@@ -314,7 +318,9 @@ def tile_query(prog: Program) -> List[Instance]:
             if isinstance(n, ast.Assign) and isinstance(n.targets[0], ast.Subscript) and short(n.targets[0].slice) == idx:
                 store_ok = True
         okl = chain_ok and q_ok and store_ok
-    if not any(isinstance(n, ast.For) for n in walk_own(g.node)):
+    if not okl and not any(isinstance(n, ast.Call) and call_name(n) == "tiles" and isinstance(n.func, ast.Attribute) and short(n.func.value) == src_p for n in walk_own(g.node)):
+        out.append(Instance("R-GUARDSEQ", f"{g.qual}#mapped-box", UNDET, "the source tiling is not queried through `<src>.tiles(..)` here (another entry point is used): not read", g.where()))
+    elif not any(isinstance(n, ast.For) for n in walk_own(g.node)):
         out.append(Instance("R-GUARDSEQ", f"{g.qual}#mapped-box", UNDET, "no for-loop over destination tiles in the linear path (comprehension / helper)", g.where()))
     else:
       out.append(Instance("R-GUARDSEQ", f"{g.qual}#mapped-box", OK if okl else BAD,
@@ -340,6 +346,9 @@ def tile_query(prog: Program) -> List[Instance]:
                         own_tile = any(isinstance(y, ast.Subscript) and short(y.value) == me and short(y.slice) == idx for y in cl)
                         via_extent = any(isinstance(y, ast.Attribute) and y.attr in ("extent", "footprint") for y in cl) or any(isinstance(y, ast.Call) and call_name(y) == "footprint" for y in cl)
                         okg = okg or (own_tile and via_extent)
+    if not okg and any(isinstance(st, ast.Assign) and isinstance(st.value, ast.Attribute) and st.value.attr in ("base", "crs", "resolution") for st in walk_own(gi.node)):
+        out.append(Instance("R-GUARDSEQ", f"{gi.qual}#per-tile-extent", UNDET, "grid_intersect works on locals holding the bases / CRSs: the query's origin is not followed through them", gi.where()))
+        return out
     stores_in_loop = any(isinstance(st, ast.Assign) and isinstance(st.targets[0], ast.Subscript) for lp in walk_own(gi.node) if isinstance(lp, ast.For) for st in ast.walk(lp))
     if not okg and not stores_in_loop:
         out.append(Instance("R-GUARDSEQ", f"{gi.qual}#per-tile-extent", UNDET, "the general path does not fill its result in a for-loop of grid_intersect itself (comprehension / helper)", gi.where()))
@@ -359,6 +368,9 @@ def tile_query(prog: Program) -> List[Instance]:
             relaxed = [k for k in n.keywords if k.arg == "tol"] + list(n.args[3:4])
             out.append(Instance("R-GUARDSEQ", f"{c.qual}#rotation-tolerance", BAD if relaxed else OK,
                                 "snap_affine is given its own rotation tolerance: small rotations are zeroed and the pair is treated as scale+translation" if relaxed else "rotation tolerance of snap_affine left at its tight default", c.where(n)))
+    if not any(isinstance(n, ast.BinOp) and isinstance(n.op, ast.Mult) and isinstance(n.left, ast.UnaryOp) and isinstance(n.left.op, ast.Invert) for n in walk_own(c.node)):
+        out.append(Instance("R-GUARDSEQ", f"{c.qual}#direction", UNDET, "the pixel-to-pixel product (~A * B) is not computed in this function (handed to another one)", c.where()))
+        return out
     out.append(Instance("R-GUARDSEQ", f"{c.qual}#direction", OK if okd else BAD, "pixel-to-pixel affine maps destination pixels into source pixels (~src * dst)" if okd else "pixel-to-pixel affine of the linear path is not ~src.transform * self.transform", c.where()))
     return out
 
